@@ -45,8 +45,8 @@ def be32(b, o):
 
 
 # ====================================================================================== concretisation of an abstract case
-def make_dcd(n, r):
-    """A DCD of exactly n bytes: header, one Write Data command, optionally one Check Data command, NOPs.  The most significant
+def make_dcd(n, r, ver=0x41):
+    """A DCD of exactly n bytes with header version `ver`: header, one Write Data command, optionally one Check Data command, NOPs.  The most significant
     byte of every value is even so that no word can imitate a Thumb reset vector for SPSDK's heuristic application finder."""
     assert n % 4 == 0 and n >= 12
     rest = n - 4
@@ -63,8 +63,59 @@ def make_dcd(n, r):
             body += struct.pack(">II", 0x400A0000 + 4 * r.randrange(0, 0x1000), (r.randrange(0, 0x40) << 25) | r.getrandbits(24))
     body += chk
     body += bytes([0xC0, 0x00, 0x04, 0x00]) * ((rest - len(body)) // 4)
-    out = bytes([0xD2]) + struct.pack(">H", n) + bytes([0x41]) + body
+    out = bytes([0xD2]) + struct.pack(">H", n) + bytes([ver]) + body
     assert len(out) == n, (len(out), n)
+    return out
+
+
+DCD_TAGS = {0xCC: "wr", 0xCF: "chk", 0xC0: "nop", 0xB2: "unlk"}
+
+
+def render_dcd(cmds, ver, r):
+    """Bytes of the abstract DCD of HabGen (DcdCmdsOf: a sequence of [tag, len]) with header version `ver`: Write Data commands with
+    every operation (write value / clear bits / set bits ...) and 1, 2, 4-byte accesses, Check Data commands with every operation,
+    with a count >= 1 where the command has the count word, NOPs, Unlock commands with one feature word.  Values fit the access width."""
+    body = b""
+    for i, c in enumerate(cmds):
+        tag, ln = c["tag"], c["len"]
+        w = r.choice([1, 2, 4])
+        fit = (1 << (8 * w)) - 1
+        if tag == 0xCC:
+            par = (((i + r.randrange(2)) % 4) << 3) | w
+            words = b"".join(struct.pack(">II", 0x400A0000 + 4 * r.randrange(0x1000), r.getrandbits(31) & fit) for _ in range((ln - 4) // 8))
+        elif tag == 0xCF:
+            par = (((i + r.randrange(2)) % 4) << 3) | w
+            words = struct.pack(">II", 0x400D8000 + 4 * r.randrange(0x100), (1 << r.randrange(31)) & fit or 1)
+            if ln == 16:
+                words += struct.pack(">I", r.choice([1, 2, 5, 100, 0x10000]))
+        elif tag == 0xC0:
+            par, words = 0, b""
+        elif tag == 0xB2:
+            par = r.choice([0x1E, 0x1D, 0x0C])  # SNVS, CAAM, OCOTP
+            words = struct.pack(">I", 1 << r.randrange(3))
+        else:
+            raise Machinery(f"DCD command tag {tag} of the generator has no rendering")
+        cmd = bytes([tag]) + struct.pack(">H", ln) + bytes([par]) + words
+        if len(cmd) != ln:
+            raise Machinery(f"DCD command {c} rendered in {len(cmd)} bytes")
+        body += cmd
+    return bytes([0xD2]) + struct.pack(">H", 4 + len(body)) + bytes([ver]) + body
+
+
+def dcd_cmds(b):
+    """Command list [tag, len] of the DCD at the start of b (a plain walk over tag | length | parameter headers, bounded by the length
+    of the DCD header and of b; stops at the first command that does not fit).  Total."""
+    out = []
+    if len(b) < 4:
+        return out
+    end = min(be16(b, 1), len(b))
+    q = 4
+    while q + 4 <= end and len(out) < 128:
+        ln = be16(b, q + 1)
+        out.append({"tag": b[q], "len": ln})
+        if ln < 4 or q + ln > end:
+            break
+        q += ln
     return out
 
 
@@ -243,7 +294,13 @@ def concretise(c, wd):
                                                                            r.randrange(24), r.randrange(60), r.randrange(60))
     cfg_bytes, cfg_cls = b"", c["cfg"]
     if c["cfg"] == "dcd":
-        cfg_bytes = make_dcd(c["cfgLen"], r)
+        if c.get("dcdShape", "gen") == "gen":
+            cfg_bytes = make_dcd(c["cfgLen"], r, c.get("dcdVer", 0x41))
+        else:  # shape of the supplied DCD = the abstract command list of the case
+            cfg_bytes = render_dcd(c["dcdCmds"], c["dcdVer"], r)
+            if len(cfg_bytes) != c["cfgLen"] or dcd_cmds(cfg_bytes) != [dict(x) for x in c["dcdCmds"]]:
+                raise Machinery(f"DCD of case {c['id']} is not the abstract DCD {c['dcdCmds']}")
+        cfg_cls = f"dcd-{c.get('dcdShape', 'gen')}-v{cfg_bytes[3]:02x}"
         opts["DCDFilePath"] = "dcd.bin"
         with open(os.path.join(wd, "dcd.bin"), "wb") as f:
             f.write(cfg_bytes)
@@ -263,7 +320,8 @@ def concretise(c, wd):
     inp = {"start": lim(start), "ivtOff": ivt_off, "ils": ils, "appLen": len(app), "flags": flags, "cfgKind": c["cfg"],
            "cfgLen": len(cfg_bytes), "entry": lim(entry), "ver": ver, "nSrk": c["nSrk"], "srcIdx": src, "fast": fast,
            "imgTgt": c["tgt"], "vfyIdx": 0 if fast else c["tgt"], "macLen": c["macLen"], "dekLen": c["dekLen"],
-           "xmcdKind": c.get("xmcdKind", "raw") if c["cfg"] == "xmcd" else "none"}
+           "xmcdKind": c.get("xmcdKind", "raw") if c["cfg"] == "xmcd" else "none",
+           "cfgVer": cfg_bytes[3] if c["cfg"] == "dcd" else 0, "dcdCmds": dcd_cmds(cfg_bytes) if c["cfg"] == "dcd" else []}
     ctx = {"case": c, "wd": wd, "app": app, "cfg_bytes": cfg_bytes, "cfg_cls": cfg_cls, "start": start, "inp": inp, "family": fam, "xmcd_src": xmcd_src,
            "dek_path": None, "fuse": None, "srk_pub_der": None, "csfk_der": None, "imgk_der": None}
     if flags != "plain":
@@ -535,7 +593,8 @@ def _walk(d, ctx, ev, reg):
         o = fo(dcd)
         need(o, 4, "DCD")
         ln = be16(d, o + 1)
-        ev.append({"ev": "Dcd", "at": o, "tag": d[o], "len": ln, "ver": d[o + 3], "match": d[o:o + len(cfgb)] == cfgb})
+        ev.append({"ev": "Dcd", "at": o, "tag": d[o], "len": ln, "ver": d[o + 3], "cmds": dcd_cmds(d[o:o + ln]) if d[o] == 0xD2 else [],
+                   "match": d[o:o + len(cfgb)] == cfgb})
         reg["cfg"] = [(o, o + len(cfgb))]
     elif inp["cfgKind"] == "xmcd":
         o = 0x40
@@ -727,6 +786,8 @@ def parse_back(d, ctx):
         xh = hab.xmcd_segment.segment.header if hab.xmcd_segment is not None else None
         xf = {"xSize": xh.block_size, "xIface": xh.interface, "xInst": xh.instance, "xType": xh.block_type} if xh is not None else \
             {"xSize": -1, "xIface": -1, "xInst": -1, "xType": -1}
+        dseg = hab.dcd_segment.segment if hab.dcd_segment is not None else None
+        df = {"dVer": dseg.header.param, "dN": len(dseg.commands)} if dseg is not None else {"dVer": -1, "dN": -1}
         ab = hab.app_segment.binary
         aa = hab.app_segment.offset
         if inp["flags"] == "enc":
@@ -738,10 +799,22 @@ def parse_back(d, ctx):
                 "plugin": n31(bdt.plugin), "flags": hab.flags, "hasDcd": hab.dcd_segment is not None, "hasXmcd": hab.xmcd_segment is not None,
                 "hasCsf": csf is not None, "appAt": aa, "cStart": lim(hab.start_address), "cIvtOff": n31(hab.ivt_offset), "nCmds": len(csf.segment.commands) if csf else 0,
                 "ivtEq": hab.ivt_segment.export() == d[0:32], "bdEq": hab.bdt_segment.export()[:12] == d[bd_at:bd_at + 12],
-                "cfgAt": cfg_at, "cfgLen": cfg_len, **xf, "cfgEq": cfg_eq, "appEq": app_eq, "csfEq": (csf.export() == d[csf_at:csf_at + 0x2000]) if csf else True,
+                "cfgAt": cfg_at, "cfgLen": cfg_len, **xf, **df, "cfgEq": cfg_eq, "appEq": app_eq, "csfEq": (csf.export() == d[csf_at:csf_at + 0x2000]) if csf else True,
                 "reexpEq": hab.export() == d}
     except Exception as x:  # noqa: BLE001 - recorded, decided by the spec
-        return {"ev": "ParseBack", "ok": False, "err": f"{type(x).__name__}: {x}"[:160]}
+        return {"ev": "ParseBack", "ok": False, "err": f"{type(x).__name__}: {x}"[:160], "where": _raised_in(x)}
+
+
+def _raised_in(x):
+    """Which segment parser of spsdk/image/hab gave up (class name of the innermost frame inside that package): names the CAUSE of a
+    failed parse in the finding key, so that a known parse failure (application finder on ciphertext) does not absorb another one."""
+    where, tb = "outside-hab", x.__traceback__
+    while tb is not None:
+        code = tb.tb_frame.f_code
+        if os.sep + os.path.join("spsdk", "image", "hab") + os.sep in code.co_filename:
+            where = getattr(code, "co_qualname", code.co_name).split(".")[0]
+        tb = tb.tb_next
+    return "".join(ch for ch in where if ch.isalnum() or ch in "-_") or "unknown"
 
 
 # ====================================================================================== one case end to end
@@ -817,7 +890,8 @@ def anchor_traces():
                "srcIdx": int(sec["21"]["installsrk_sourceindex"]) if "21" in sec else 0, "fast": "23" in sec,
                "imgTgt": int(sec["25"]["installkey_targetindex"]) if "25" in sec else 0,
                "vfyIdx": int(sec["26"]["authenticatedata_verificationindex"]) if "26" in sec else 0,
-               "macLen": int(sec["28"].get("decrypt_macbytes", 16)) if "28" in sec else 16, "dekLen": len(rd("dek.bin") or b""), "waive": [], "xmcdKind": "none"}
+               "macLen": int(sec["28"].get("decrypt_macbytes", 16)) if "28" in sec else 16, "dekLen": len(rd("dek.bin") or b""), "waive": [], "xmcdKind": "none",
+               "cfgVer": dcd[3] if dcd else 0, "dcdCmds": dcd_cmds(dcd) if dcd else []}
         ctx = {"inp": inp, "app": app, "cfg_bytes": dcd or b"", "start": o["startaddress"], "srk_der": None,
                "fuse": bytes.fromhex(m["fuse_hex"]) if m.get("fuse_hex") else None, "csfk_der": rd("csfk.der"), "imgk_der": rd("imgk.der"),
                "dek_path": os.path.join(a, "dek.bin") if rd("dek.bin") else None}
@@ -854,7 +928,7 @@ def gen_cases(tier):
 def hint(e):
     bad = [k for k, v in e.items() if v is False and k not in ("ca", "hasDcd", "hasXmcd", "hasCsf", "ok")]
     if e.get("ev") == "ParseBack" and e.get("ok") is False:
-        return "parse-raised:" + e.get("err", "").split(":")[0]
+        return "parse-raised:" + e.get("err", "").split(":")[0] + ":" + e.get("where", "unknown")
     if e.get("ev") == "BuildFailed":
         return e.get("exc", "?")
     if e.get("ev") == "Stop":
@@ -885,7 +959,8 @@ def finding_key(t, matched):
 
 CANARY_FIELDS = [("ParseIvt", "self", lambda v: [v[0], (v[1] + 0x400) & 0xFFFF]), ("BootData", "len", lambda v: v - 0x2000),
                  ("Authenticate", "digestOk", lambda v: False), ("Authenticate", "blocks", lambda v: v[:-1]),
-                 ("InstallKey", "fuseOk", lambda v: False), ("ParseBack", "appEq", lambda v: False)]
+                 ("InstallKey", "fuseOk", lambda v: False), ("ParseBack", "appEq", lambda v: False),
+                 ("Dcd", "ver", lambda v: v ^ 1), ("Dcd", "tag", lambda v: 0), ("ParseBack", "dVer", lambda v: v ^ 1)]
 
 
 XMCD_CANARY_FIELDS = [("ParseBack", "hasXmcd", lambda v: False), ("ParseBack", "cfgLen", lambda v: 0), ("ParseBack", "cfgAt", lambda v: -1),
@@ -908,7 +983,7 @@ def synthetic_xmcd_trace(kind):
     entry = start + ils + 0x101
     inp = {"start": lim(start), "ivtOff": ivt_off, "ils": ils, "appLen": app_len, "flags": "plain", "cfgKind": "xmcd", "cfgLen": len(g),
            "entry": lim(entry), "ver": 0x40, "nSrk": 0, "srcIdx": 0, "fast": False, "imgTgt": 0, "vfyIdx": 0, "macLen": 16, "dekLen": 0,
-           "waive": [], "xmcdKind": kind}
+           "waive": [], "xmcdKind": kind, "cfgVer": 0, "dcdCmds": []}
     ev = [{"ev": "ParseIvt", "tag": 0xD1, "len": 32, "ver": 0x40, "entry": lim(entry), "dcd": [0, 0], "bd": lim(base + 32), "self": lim(base),
            "csf": [0, 0], "fileLen": file_len},
           {"ev": "BootData", "at": 32, "start": lim(start), "len": ivt_off + file_len, "plugin": 0},
@@ -918,8 +993,39 @@ def synthetic_xmcd_trace(kind):
           {"ev": "ParseBack", "ok": True, "self": lim(base), "bd": lim(base + 32), "dcd": [0, 0], "csf": [0, 0], "entry": lim(entry),
            "bdStart": lim(start), "bdLen": ivt_off + file_len, "plugin": 0, "flags": 0, "hasDcd": False, "hasXmcd": True, "hasCsf": False,
            "appAt": app_at, "cStart": lim(start), "cIvtOff": ivt_off, "nCmds": 0, "ivtEq": True, "bdEq": True, "cfgAt": 0x40, "cfgLen": len(g),
-           "xSize": size, "xIface": iface, "xInst": inst, "xType": btype, "cfgEq": True, "appEq": True, "csfEq": True, "reexpEq": True}]
+           "xSize": size, "xIface": iface, "xInst": inst, "xType": btype, "dVer": -1, "dN": -1, "cfgEq": True, "appEq": True, "csfEq": True, "reexpEq": True}]
     return {"id": f"canary/xmcd-{kind}/good", "inp": inp, "ev": ev, "meta": {}}
+
+
+DCD_CANARY_FIELDS = [("Dcd", "tag", lambda v: 0), ("Dcd", "ver", lambda v: 0x41), ("Dcd", "ver", lambda v: 0x30), ("Dcd", "len", lambda v: v + 4),
+                     ("Dcd", "cmds", lambda v: v + [{"tag": 0xC0, "len": 4}]), ("Dcd", "match", lambda v: False), ("Dcd", "at", lambda v: v + 4),
+                     ("ParseBack", "hasDcd", lambda v: False), ("ParseBack", "dVer", lambda v: 0x41), ("ParseBack", "dN", lambda v: v + 1),
+                     ("ParseBack", "cfgLen", lambda v: 0), ("ParseBack", "cfgEq", lambda v: False), ("ParseBack", "ok", lambda v: False)]
+
+
+def synthetic_dcd_trace(cmds):
+    """A known-good trace written down by hand from the documented layout - no code of the tree under test involved: a plain image
+    (IVT at 0x400, application at 0x1000) whose IVT points at a HAB 4.0 DCD (version 0x40) at IVT + 0x40 with the given commands
+    (none = the smallest legal DCD, D2 00 04 40), and a parser that recovers everything."""
+    n = 4 + sum(c["len"] for c in cmds)
+    start, ivt_off, ils, app_len = 0x80000000, 0x400, 0x1000, 4097
+    base, app_at = start + ivt_off, ils - ivt_off
+    file_len = app_at + app_len
+    entry = start + ils + 0x101
+    inp = {"start": lim(start), "ivtOff": ivt_off, "ils": ils, "appLen": app_len, "flags": "plain", "cfgKind": "dcd", "cfgLen": n,
+           "entry": lim(entry), "ver": 0x40, "nSrk": 0, "srcIdx": 0, "fast": False, "imgTgt": 0, "vfyIdx": 0, "macLen": 16, "dekLen": 0,
+           "waive": [], "xmcdKind": "none", "cfgVer": 0x40, "dcdCmds": cmds}
+    ev = [{"ev": "ParseIvt", "tag": 0xD1, "len": 32, "ver": 0x40, "entry": lim(entry), "dcd": lim(base + 0x40), "bd": lim(base + 32), "self": lim(base),
+           "csf": [0, 0], "fileLen": file_len},
+          {"ev": "BootData", "at": 32, "start": lim(start), "len": ivt_off + file_len, "plugin": 0},
+          {"ev": "Dcd", "at": 0x40, "tag": 0xD2, "len": n, "ver": 0x40, "cmds": cmds, "match": True},
+          {"ev": "App", "at": app_at, "len": app_len, "padOk": True},
+          {"ev": "Accept"},
+          {"ev": "ParseBack", "ok": True, "self": lim(base), "bd": lim(base + 32), "dcd": lim(base + 0x40), "csf": [0, 0], "entry": lim(entry),
+           "bdStart": lim(start), "bdLen": ivt_off + file_len, "plugin": 0, "flags": 0, "hasDcd": True, "hasXmcd": False, "hasCsf": False,
+           "appAt": app_at, "cStart": lim(start), "cIvtOff": ivt_off, "nCmds": 0, "ivtEq": True, "bdEq": True, "cfgAt": 0x40, "cfgLen": n,
+           "xSize": -1, "xIface": -1, "xInst": -1, "xType": -1, "dVer": 0x40, "dN": len(cmds), "cfgEq": True, "appEq": True, "csfEq": True, "reexpEq": True}]
+    return {"id": f"canary/dcd-{len(cmds)}cmds/good", "inp": inp, "ev": ev, "meta": {}}
 
 
 def corrupt(good, prefix, fields):
@@ -945,6 +1051,9 @@ def canary_batch(traces, anchors):
     groups = [("canary/anchor", dict(good, id="canary/anchor/good"), True, CANARY_FIELDS)]
     for kind in sorted(XMCD_KIND_CFG):  # one hand-written trace per XMCD kind: the kind table of the spec = the golden blocks
         groups.append((f"canary/xmcd-{kind}", synthetic_xmcd_trace(kind), True, XMCD_CANARY_FIELDS))
+    # hand-written traces for the DCD step: the smallest legal DCD (header only) and one with a command of every kind, HAB 4.0 header
+    for cmds in ([], [{"tag": 0xCC, "len": 12}, {"tag": 0xC0, "len": 4}, {"tag": 0xCF, "len": 16}, {"tag": 0xB2, "len": 8}]):
+        groups.append((f"canary/dcd-{len(cmds)}cmds", synthetic_dcd_trace(cmds), True, DCD_CANARY_FIELDS))
     cands = [t for t in traces if t["inp"]["flags"] == "auth" and t["inp"]["cfgKind"] == "dcd" and t["ev"][-1]["ev"] == "ParseBack"
              and t["ev"][-1].get("ok") and "/t/" not in t["id"]][:3]
     for k, t in enumerate(cands):
@@ -964,11 +1073,13 @@ def canary_check(batch, groups, rej):
             continue  # a trace of this run that the R-spec rejects is reported by the normal path
         bad = [b["id"] for b in batch if b["id"].startswith(prefix + "/bad")]
         acc = [i for i in bad if i not in rej]
-        if acc or len(bad) < (len(fields) if must and fields is XMCD_CANARY_FIELDS else 4):
+        if acc or len(bad) < (len(fields) if must and fields is not CANARY_FIELDS else 4):
             raise Machinery(f"canary failed: corrupted copies accepted {acc} ({len(bad)} corrupted copies of {g['id']})")
         n_bad += len(bad)
     n_x = len(XMCD_KIND_CFG)
-    return (f"{len(groups)} known-good traces (1 golden image + {n_x} hand-written XMCD traces, one per kind + {len(groups) - 1 - n_x} of this run), "
+    n_d = sum(1 for prefix, _g, _m, _f in groups if prefix.startswith("canary/dcd-"))
+    return (f"{len(groups)} known-good traces (1 golden image + {n_x} hand-written XMCD traces, one per kind + {n_d} hand-written DCD traces "
+            f"(header only / every command kind, version 0x40) + {len(groups) - 1 - n_x - n_d} of this run), "
             f"{n_bad} corrupted copies of the accepted ones rejected")
 
 
@@ -1055,7 +1166,8 @@ def run(tier):
     mc = tlc.mc("C07", "HabRomMC", require_actions=acts, env={"MC_FULL": 0 if tier == "quick" else 1}, timeout=1200, heap="6g")
     v.add_mc(mc)
     say(f"[C07] MC HabRomMC: {mc.distinct} states, depth {mc.depth}, {mc.wall:.1f}s, all {len(acts)} actions fired, 8 lemmas hold "
-        f"(incl. every parse mutant rejected by the round-trip clause; every XMCD kind x flag in scope)")
+        f"(incl. every parse mutant rejected by the round-trip clause; every XMCD kind x flag and every DCD shape x header version x flag in scope; "
+        f"builders that force the DCD version / drop the DCD but keep the IVT pointer rejected at the DCD step)")
 
     # ---- GEN
     cases, g = gen_cases(tier)
@@ -1067,6 +1179,11 @@ def run(tier):
            {("raw", f, "rand") for f in ("plain", "auth", "enc")}
     if want - have:
         raise Machinery(f"GEN does not span the XMCD dimension: missing {sorted(want - have)[:5]}")
+    # ... and so is the shape of the supplied DCD: every shape x header version (0x40 / 0x41 / another 4.x) x flag
+    have_d = {(c["dcdShape"], c["dcdVerSel"], c["flags"]) for c in cases if c["cfg"] == "dcd"}
+    want_d = {(sh, vs, f) for sh in ("hdr", "one", "wr", "chk", "misc", "mix") for vs in (0, 1, 2) for f in ("plain", "auth", "enc")}
+    if want_d - have_d or not any(c["cfg"] == "dcd" and c["cfgLen"] == 4 and c["dcdVer"] == 0x40 for c in cases):
+        raise Machinery(f"GEN does not span the DCD shape dimension: missing {sorted(want_d - have_d)[:5]}")
     prepare_xmcd()
     failed = {k: note for k, (b, note) in _xmcd_tmpl.items() if b is None}
     v.extra["xmcd_blocks"] = {"golden": {k: len(xmcd_golden(k)) for k in sorted(XMCD_KIND_CFG)},
@@ -1097,7 +1214,8 @@ def run(tier):
     say(f"[C07] TV HabRomTrace: {n_ok}/{len(cases)} untampered images accepted (+{n_wok} with a known-finding clause waived), "
         f"{n_trej}/{n_tt} tampered images rejected")
     v.cov["rule"] = ("cases = states of HabGen (layout class x application size around the 4 KiB / 16-byte boundaries x plain/auth/enc x "
-                     "none/DCD, and layout class x plain/auth/enc x XMCD kind (FlexSPI RAM simplified 8 / 12 B, SEMC SDRAM simplified 13 B, "
+                     "none/DCD, flags x SHAPE OF THE SUPPLIED DCD (header only = 4 bytes / one Write Data command / several Write Data / several Check Data / "
+                     "NOP + Unlock / every kind) x DCD header version (0x40 / 0x41 / another 4.x), and layout class x plain/auth/enc x XMCD kind (FlexSPI RAM simplified 8 / 12 B, SEMC SDRAM simplified 13 B, "
                      "SEMC SDRAM full 72 B, FlexSPI RAM full 516 B, raw header + bytes of 8..516 B) x source of the block (golden / built by "
                      "SPSDK's XMCD class from its template / random configuration bytes); secondary dimensions spread by index); one evaluation = one image built by HabContainer.load_from_config "
                      "and walked by the executor (or one single-bit tampered copy); a case is non-trivial if TLC accepted its whole trace "
@@ -1111,6 +1229,9 @@ def run(tier):
         "application offset (initial load size - IVT offset) is one of the device offsets of the database / of the repository's examples (0x400, 0xC00, 0x1000, 0x2000)",
         "DCD and XMCD are alternatives (both live at IVT+0x40); DCD words are chosen so that no byte pattern imitates a Thumb reset vector or an XMCD tag for SPSDK's heuristic parser; "
         "likewise the byte of an XMCD block at file offset 0x104 (a place the heuristic application finder probes) is even",
+        "DCDs given to the builder are well formed (tag 0xD2, HAB major version 4: header version 0x40..0x45, commands Write Data / Check Data / NOP / Unlock of legal "
+        "lengths, at most 332 bytes); NOT generated, hence not asserted: Check Data with an explicit count of 0 and Unlock commands with more or fewer than one "
+        "feature word (SegDCD.parse of the unchanged tree refuses / does not reproduce them: no image is built from them), header versions outside 4.x",
         "XMCD blocks are the kinds that exist for RT116x / RT117x (anchors/C07/xmcd, HabLayout!XmcdKinds) or a well-formed header + arbitrary bytes of 8..516 bytes "
         "(no block bigger than the biggest real kind is asserted); the XMCD is accepted with every layout whose application offset is >= 0xC00, whatever the family",
         "parse-back of encrypted images is not observable (known finding C07/enc/ParseBack/...): the XMCD round trip is decided for plain and authenticated images",
